@@ -2,7 +2,7 @@
 
 Engine C: real threads running real ATP_Store methods under the controlled scheduler; every
 source line of operon_ai/state/metabolism.py is a scheduling point, and so is the gap between two
-lock acquisitions made by one line (PointLock below: `with a, b:` is one source line but two
+lock acquisitions made by one line (sched.CoopLock: `with a, b:` is one source line but two
 visible steps); the stores' threading.Lock/RLock is replaced by a scheduler-aware lock (same
 mutual-exclusion semantics, blocking visible).
 
@@ -22,10 +22,11 @@ one of the operations the statement lists and is unsynchronised in the code.
 """
 from __future__ import annotations
 
+import builtins
 import contextlib
 import io
 import itertools
-import threading
+import traceback
 
 from mc import common, sched
 
@@ -38,7 +39,8 @@ GETTERS = ("get", "report")
 
 # harness = (store configs {name: (budget,gtp,nadh,max_debt[,options])}, threads [[op,...],...])
 #   options: silent (default True), cb (True: record on_state_change notifications; "raise": record, then raise
-#   ValueError()), interest (debt_interest)
+#   ValueError(); ("raise", class name, message or None): record, then raise that builtin exception), interest
+#   (debt_interest)
 # SETUP[name] = calls applied sequentially before the threads start (start state reached through the public API)
 # OPTS[name]  = {"order": creation order of the stores ("_" = an unrelated store created in between; the
 #                creation order fixes the global lock ranks), "advisory": non-sequential outcomes are only counted}
@@ -90,20 +92,30 @@ H["R0r-underfunded-ring-ranks-reversed"] = _RING0
 OPTS["R0r-underfunded-ring-ranks-reversed"] = OPTS["R2-transfer-ring-ranks-reversed"]
 
 
+REVERSED = ("B", "_", "A")  # the second store created first, an unrelated store (one more lock rank) in between
+
+
 def pair_family(prefix, cfg, setup, ops, opts=None, skip=None):
-    """every unordered pair (with repetition) of the operation kinds, one kind per thread"""
+    """every unordered pair (with repetition) of the operation kinds, one kind per thread; a pair in which both
+    threads work on two stores (transfer || transfer, same or opposite direction) is generated under both creation
+    orders of the stores (`...@r`: the creation order fixes the lock ranks, so which of donor / receiver is locked
+    first)"""
     out = []
     names = sorted(ops)
+    two_store = {k for k in names if any(op[0] == "transfer" and op[1] != op[2] for op in ops[k])}
     for i, a in enumerate(names):
         for b in names[i:]:
             if skip and skip(a, b):
                 continue
-            n = f"{prefix}:{a}|{b}"
-            H[n] = (cfg, [ops[a], ops[b]])
-            SETUP[n] = setup
-            if opts:
-                OPTS[n] = opts
-            out.append(n)
+            for suffix, extra in (("", {}), ("@r", {"order": REVERSED})):
+                if suffix and not (a in two_store and b in two_store):
+                    continue
+                n = f"{prefix}:{a}|{b}{suffix}"
+                H[n] = (cfg, [ops[a], ops[b]])
+                SETUP[n] = setup
+                if opts or extra:
+                    OPTS[n] = {**(opts or {}), **extra}
+                out.append(n)
     return out
 
 
@@ -128,11 +140,14 @@ PAIRS = pair_family("P", PAIR_CFG, PAIR_SETUP, PAIR_OPS)
 # --- G: the same idea over all three currencies, from a debt-carrying start state, with the non-default
 # constructor options (silent=False: the print branches run; on_state_change: notifications are part of the
 # outcome) and with getters running concurrently with the mutators.
-# stores after SETUP: A = atp 2/4, gtp 2/3, nadh 3/3, debt 1/3 (NORMAL) ; B = atp 2/3, gtp 2/3, nadh 2/3
+# stores after SETUP: A = atp 2/4, gtp 2/3, nadh 3/3, debt 1/3 (NORMAL) ; B = atp 2/4, gtp 2/3, nadh 2/3 (NORMAL)
+# Both stores notify a recording callback, and the amounts are chosen such that the debit of every ATP / GTP
+# transfer takes its donor across a metabolic-state threshold (A: xfer-out-gtp, B: xfer-in-*; measured in run():
+# coverage["threshold_crossing_transfers"]), so a state refresh + notification anywhere inside a transfer is visible.
 _GO = {"silent": False, "cb": True}
-G_CFG = {"A": (4, 3, 3, 3, _GO), "B": (3, 3, 3, 0, _GO)}
+G_CFG = {"A": (4, 3, 3, 3, _GO), "B": (4, 3, 3, 0, _GO)}
 G_SETUP = [("consume", "A", 4, "GTP", True), ("consume", "A", 2, "ATP", False), ("regenerate", "A", 2, "GTP"),
-           ("consume", "B", 1, "ATP", False), ("consume", "B", 1, "GTP", False), ("consume", "B", 1, "NADH", False)]
+           ("consume", "B", 2, "ATP", False), ("consume", "B", 1, "GTP", False), ("consume", "B", 1, "NADH", False)]
 G_OPS = {
     "spend-gtp": [("consume", "A", 1, "GTP", False)],
     "gtp-debt": [("consume", "A", 3, "GTP", True)],
@@ -184,8 +199,10 @@ IPAIRS = pair_family("I", I_CFG, I_SETUP, I_OPS, opts={"advisory": True}, skip=l
 # --- X: the state-change callback raises (an exception with an empty message) while the store's lock(s) are
 # held: the lock must be released on that path too, and what the call did before notifying stays done. A call
 # ending in the callback's exception is an expected return value here ("raised", class name).
-# stores after SETUP: A = atp 2/4, debt 0/2 (NORMAL), callback raises on every change ; B = atp 2/3, no callback
-X_CFG = {"A": (4, 0, 0, 2, {"cb": "raise"}), "B": (3, 0, 0, 0)}
+# stores after SETUP: A = atp 2/4, debt 0/2 (NORMAL), callback raises on every change ; B = atp 2/3 (NORMAL),
+# recording callback. Every transfer takes its donor and its receiver across a state threshold (A: 2 -> 1 conserving,
+# 2 -> 4 feasting; B: 2 -> 0 starving, 2 -> 3 feasting).
+X_CFG = {"A": (4, 0, 0, 2, {"cb": "raise"}), "B": (3, 0, 0, 0, {"cb": True})}
 X_SETUP = [("set", "A", "on_state_change", None), ("consume", "A", 2, "ATP", False), ("consume", "B", 1, "ATP", False),
            ("set", "A", "on_state_change", "cb")]
 X_OPS = {
@@ -197,6 +214,20 @@ X_OPS = {
     "reset": [("reset", "A")],
 }
 XPAIRS = pair_family("X", X_CFG, X_SETUP, X_OPS, opts={"raising_cb": True})
+
+# --- E: the class (and message) of the exception the callback raises, for a call that notifies while holding one
+# lock (spend) next to one that notifies while holding two (incoming transfer): every builtin exception class that
+# library code plausibly treats specially, with an empty and with a non-empty message.
+E_CLASSES = ("TypeError", "ValueError", "KeyError", "AttributeError", "StopIteration", "RuntimeError", "AssertionError",
+             "LookupError", "OSError", "TimeoutError")
+EPAIRS = []
+for _c in E_CLASSES:
+    for _m in (None, "boom"):
+        _n = f"E:{_c}{'+msg' if _m else ''}:spend1|xfer-in"
+        H[_n] = ({"A": X_CFG["A"][:4] + ({"cb": ("raise", _c, _m)},), "B": X_CFG["B"]}, [X_OPS["spend1"], X_OPS["xfer-in"]])
+        SETUP[_n] = X_SETUP
+        OPTS[_n] = {"raising_cb": True}
+        EPAIRS.append(_n)
 
 # --- T (thorough): three-thread variants of the most contended P kinds (every multiset of three of the kinds that
 # debit, credit or convert into A's ATP pool; one kind per thread)
@@ -217,12 +248,12 @@ RINGS = [n for n in H if n.startswith("R")]
 
 
 def plan(tier):
-    """[(harness, preemption bound)] at line granularity. quick: bound 2, except the wide G family at bound 1
+    """[(harness, preemption bound)] at line granularity. quick: bound 2, except the wide G and E families at bound 1
     (one preemption = one thread stopped anywhere inside its call while the other runs its call to the end);
-    thorough: bound 3, except the G family and the three-thread rings and triples at bound 2."""
+    thorough: bound 3, except the G and E families and the three-thread rings and triples at bound 2."""
     if tier == "quick":
-        return [(n, 2) for n in QUICK + PAIRS + DPAIRS + IPAIRS + XPAIRS] + [(n, 1) for n in GPAIRS]
-    two = set(RINGS) | set(TRIPLES) | set(GPAIRS)
+        return [(n, 2) for n in QUICK + PAIRS + DPAIRS + IPAIRS + XPAIRS] + [(n, 1) for n in GPAIRS + EPAIRS]
+    two = set(RINGS) | set(TRIPLES) | set(GPAIRS) | set(EPAIRS)
     return [(n, 2 if n in two else 3) for n in H]
 
 
@@ -231,37 +262,11 @@ class _Null(io.TextIOBase):
         return len(s)
 
 
-# ---- scheduler-aware locks whose acquisition is itself a scheduling point -----------------------------------
-class PointLock(sched.CoopLock):
-    """CoopLock + a scheduling point between back-to-back acquisitions: `with first._lock, second._lock:` is one
-    source line, so the line tracer alone would make the two acquisitions one indivisible step. A point is
-    inserted in front of an acquisition iff no scheduling point has been passed since the same thread's previous
-    acquisition returned (the first acquisition of a line directly follows that line's own point)."""
-
-    def acquire(self, blocking=True, timeout=-1):
-        s, me = self._me()
-        if s is None:
-            return super().acquire(blocking, timeout)
-        last = s.__dict__.setdefault("_acquired_at", {})
-        if last.get(me) == s.npoints and not (self.reentrant and self.owner == me):
-            s.point(me, ("acquire", self.name))
-        try:
-            return super().acquire(blocking, timeout)
-        finally:
-            last[me] = s.npoints
-
-
-_LOCK_T = type(threading.Lock())
-_RLOCK_T = type(threading.RLock())
-
-
 def install_locks(obj):
-    out = []
-    for k, v in list(vars(obj).items()):
-        if isinstance(v, (_LOCK_T, _RLOCK_T)):
-            setattr(obj, k, PointLock(isinstance(v, _RLOCK_T), f"{type(obj).__name__}.{k}"))
-            out.append(k)
-    return out
+    """threading.Lock/RLock attributes -> sched.CoopLock (its acquire() is itself a scheduling point when it directly
+    follows the same thread's previous acquisition: `with first._lock, second._lock:` is one source line but two
+    visible steps)"""
+    return sched.install_locks(obj)
 
 
 class Stores(dict):
@@ -269,10 +274,12 @@ class Stores(dict):
 
 
 def _recorder(stores, name, log, raises):
+    """raises: None, or (builtin exception class name, message or None for an empty-message instance)"""
     def on_state_change(st):
         log.append((st.value, stores[name].get_balance(), stores[name].get_debt()))
         if raises:
-            raise ValueError()
+            cls = getattr(builtins, raises[0])
+            raise cls() if raises[1] is None else cls(raises[1])
     return on_state_change
 
 
@@ -290,7 +297,8 @@ def mk_stores(cfgs, order=None):
             kw["debt_interest"] = o["interest"]
         if o.get("cb"):
             log = stores.logs[name] = []
-            kw["on_state_change"] = _recorder(stores, name, log, o["cb"] == "raise")
+            raises = None if o["cb"] is True else ("ValueError", None) if o["cb"] == "raise" else tuple(o["cb"][1:3])
+            kw["on_state_change"] = _recorder(stores, name, log, raises)
         s = ATP_Store(budget=b, gtp_budget=g, nadh_reserve=n, max_debt=d, silent=o.get("silent", True), **kw)
         # scheduler-aware locks everywhere, also in the sequential reference runs: there a call that
         # re-acquires a lock it already holds raises HangDetected instead of hanging the check
@@ -300,12 +308,41 @@ def mk_stores(cfgs, order=None):
     return stores
 
 
+def guarded(fn, *args):
+    """A call the harness makes into the implementation: an escaping exception becomes the value
+    ("raised", class name), a detected sequential hang ("hang", message) - never a traceback of the check."""
+    try:
+        return fn(*args)
+    except sched.HangDetected as e:
+        return ("hang", str(e))
+    except Exception as e:  # noqa: BLE001
+        return ("raised", type(e).__name__)
+
+
+def is_hang(r):
+    return isinstance(r, tuple) and len(r) == 2 and r[0] == "hang"
+
+
+def is_raised(r):
+    return isinstance(r, tuple) and len(r) == 2 and r[0] == "raised"
+
+
 def call(stores, op):
     """apply, with an exception escaping from the user's callback turned into the call's return value"""
     try:
         return apply(stores, op)
     except Exception as e:  # noqa: BLE001
         return ("raised", type(e).__name__)
+
+
+def run_setup(stores, setup):
+    """the start state is reached through the public API, sequentially and with no raising callback installed:
+    a call that raises or hangs there is returned as (op, result), else None"""
+    for op in setup:
+        r = guarded(apply, stores, op)
+        if is_hang(r) or is_raised(r):
+            return (op, r)
+    return None
 
 
 def apply(stores, op):
@@ -347,10 +384,18 @@ def apply(stores, op):
     raise AssertionError(op)
 
 
+def _final_of(s):
+    return (s.atp, s.gtp, s.nadh, s.get_debt(), s.get_state().value, s.get_statistics()["total_consumed"])
+
+
 def final(stores):
-    return tuple((n, s.atp, s.gtp, s.nadh, s.get_debt(), s.get_state().value, s.get_statistics()["total_consumed"])
-                 + ((tuple(stores.logs[n]),) if n in stores.logs else ())
-                 for n, s in sorted(stores.items()))
+    out = []
+    for n, s in sorted(stores.items()):
+        f = guarded(_final_of, s)
+        if is_hang(f) or is_raised(f):  # a getter fails on the end state: part of the outcome
+            f = (s.atp, s.gtp, s.nadh, s._debt, f)
+        out.append((n,) + f + ((tuple(stores.logs[n]),) if n in stores.logs else ()))
+    return tuple(out)
 
 
 def interleavings(lens):
@@ -359,9 +404,12 @@ def interleavings(lens):
     return sorted(set(itertools.permutations(ids)))
 
 
-def sequential_outcomes(cfgs, threads, split, setup=(), order=None, do=apply):
+def sequential_outcomes(cfgs, threads, split, setup=(), order=None):
     """Reference: the implementation itself, run sequentially in every order of the calls.
-    split=True: a transfer counts as two atomic steps (debit, later credit)."""
+    split=True: a transfer counts as two atomic steps (debit, later credit).
+    Every call is guarded: a call that raises has ("raised", class) as its return value in that order's outcome;
+    a call that can never return (re-acquires a lock its own thread left held) makes the whole reference
+    {("sequential-hang", ...)}, a failing setup call {("sequential-setup", ...)} (judged as such)."""
     outs = set()
     steps = []
     for t in threads:
@@ -375,8 +423,9 @@ def sequential_outcomes(cfgs, threads, split, setup=(), order=None, do=apply):
         steps.append(ts)
     for order_ in interleavings([len(t) for t in steps]):
         stores = mk_stores(cfgs, order)
-        for op in setup:
-            apply(stores, op)
+        bad = run_setup(stores, setup)
+        if bad:
+            return {("sequential-setup", f"{bad[0]} -> {bad[1]}")}
         sink = ATP_Store(budget=10**6, gtp_budget=10**6, nadh_reserve=10**6, silent=True)
         sink.atp = sink.gtp = sink.nadh = 0
         install_locks(sink)
@@ -387,26 +436,19 @@ def sequential_outcomes(cfgs, threads, split, setup=(), order=None, do=apply):
             op = steps[tid][pos[tid]]
             pos[tid] += 1
             if op[0] == "xfer_debit":
-                try:
-                    r = stores[op[1]].transfer_to(sink, op[3], ET[op[4]])
-                except sched.HangDetected as e:
-                    return {("sequential-hang", f"{op}: {e}")}
-                pend[tid] = r
+                r = pend[tid] = guarded(stores[op[1]].transfer_to, sink, op[3], ET[op[4]])
             elif op[0] == "xfer_credit":
                 r = pend.pop(tid)
-                if r:
-                    try:
-                        stores[op[2]].regenerate(op[3], ET[op[4]])
-                    except Exception as e:  # noqa: BLE001
-                        if do is apply:
-                            raise
-                        r = ("raised", type(e).__name__)
-                rets[tid].append(r)
+                if r is True:
+                    c = guarded(stores[op[2]].regenerate, op[3], ET[op[4]])
+                    r = c if is_hang(c) or is_raised(c) else r
+                if not is_hang(r):
+                    rets[tid].append(r)
             else:
-                try:
-                    rets[tid].append(do(stores, op))
-                except sched.HangDetected as e:
-                    return {("sequential-hang", f"{op}: {e}")}
+                r = guarded(apply, stores, op)
+                rets[tid].append(r)
+            if is_hang(r):
+                return {("sequential-hang", f"{op}: {r[1]}")}
         outs.add((tuple(tuple(r) for r in rets), final(stores)))
     return outs
 
@@ -418,8 +460,7 @@ def make_factory(name):
 
     def make():
         stores = mk_stores(cfgs, order)
-        for op in SETUP.get(name, ()):
-            apply(stores, op)
+        run_setup(stores, SETUP.get(name, ()))  # a failing setup call is judged by judge_factory (sequential-setup)
 
         def body(ops):
             def run():
@@ -474,21 +515,20 @@ def judge_factory(name):
     opts = OPTS.get(name, {})
     order = opts.get("order")
     with contextlib.redirect_stdout(_Null()):
-        do = call if opts.get("raising_cb") else apply
-        strict = sequential_outcomes(cfgs, threads, split=False, setup=setup, order=order, do=do)
-        split = sequential_outcomes(cfgs, threads, split=True, setup=setup, order=order, do=do)
+        strict = sequential_outcomes(cfgs, threads, split=False, setup=setup, order=order)
+        split = sequential_outcomes(cfgs, threads, split=True, setup=setup, order=order)
         start = mk_stores(cfgs, order)
-        for op in setup:
-            apply(start, op)
+        run_setup(start, setup)
     hang = [o for o in strict if o and o[0] == "sequential-hang"]
+    bad_setup = [o for o in strict if o and o[0] == "sequential-setup"]
     kinds = {op[0] for t in threads for op in t}
     mask = [[op[0] in GETTERS for op in t] for t in threads]
     has_getters = any(any(m) for m in mask)
-    strict_proj = set() if hang or not has_getters else {project(o, mask) for o in strict}
+    strict_proj = set() if hang or bad_setup or not has_getters else {project(o, mask) for o in strict}
     # observer-side accounting (public call history only): wealth = atp + gtp + nadh - debt over all stores;
     # a successful spend lowers it by exactly its cost, a regeneration raises it by at most its amount,
     # convert / transfer / dormancy never raise it
-    w_start = sum(s.atp + s.gtp + s.nadh - s.get_debt() for s in start.values())
+    w_start = sum(s.atp + s.gtp + s.nadh - s._debt for s in start.values())
     max_debt = {n: s.max_debt for n, s in start.items()}
     accountable = not (kinds & {"reset", "express", "interest", "set"})
     debt_capped = "interest" not in kinds
@@ -517,6 +557,8 @@ def judge_factory(name):
 
     def judge(ex, outcome):
         v = []
+        if bad_setup:
+            return [(f"call-fails-sequentially:{name}", f"while reaching the start state, no concurrency: {bad_setup[0][1]}")]
         if hang:
             return [(f"call-hangs-sequentially:{name}", f"even without any concurrency: {hang[0][1]}")]
         if ex.deadlock:
@@ -569,8 +611,42 @@ def _strip(res):
     return res
 
 
+def run_harness_deferring(name, bound, strip=False, **kw):
+    """run_harness; anything that still escapes (a changed tree can cause it) is deferred, so that the other
+    harnesses are explored and judged all the same"""
+    try:
+        res = run_harness(name, bound, **kw)
+        return _strip(res) if strip else res
+    except Exception:  # noqa: BLE001
+        return {"error": f"harness {name}: " + traceback.format_exc()[-1500:]}
+
+
+def crossing_transfers(cfg, setup, ops):
+    """Vacuity measure for the callback families, taken through the public API only: the transfer kinds whose
+    amount, debited from the donor (credited to the receiver) in the start state, changes that store's metabolic
+    state - i.e. where a state refresh / notification inside the transfer has something to report."""
+    out = {"donor": [], "receiver": []}
+    for k in sorted(ops):
+        for op in ops[k]:
+            if op[0] != "transfer" or op[1] == op[2]:
+                continue
+            with contextlib.redirect_stdout(_Null()):
+                stores = mk_stores(cfg)
+                run_setup(stores, setup)
+                d, r = stores[op[1]], stores[op[2]]
+                before = (guarded(d.get_state), guarded(r.get_state))
+                guarded(d.consume, op[3], "probe", ET[op[4]])
+                guarded(r.regenerate, op[3], ET[op[4]])
+                after = (guarded(d.get_state), guarded(r.get_state))
+            if before[0] != after[0] and op[1] in stores.logs:
+                out["donor"].append(k)
+            if before[1] != after[1] and op[2] in stores.logs:
+                out["receiver"].append(k)
+    return out
+
+
 def _is_small(name):
-    return name[:2] in ("P:", "G:", "D:", "I:", "T:", "X:")
+    return name[:2] in ("P:", "G:", "D:", "I:", "T:", "X:", "E:")
 
 
 def run(ctx):
@@ -581,16 +657,25 @@ def run(ctx):
     # sanity: the lock replacement must find the lock the code actually uses
     s = ATP_Store(budget=1, silent=True)
     ctx.coverage["locks_replaced"] = install_locks(s)
+    # sanity: the callback families must contain transfers that take a store with a callback across a state threshold
+    crossing = {"G": crossing_transfers(G_CFG, G_SETUP, G_OPS), "X": crossing_transfers(X_CFG, X_SETUP, X_OPS)}
+    ctx.coverage["threshold_crossing_transfers"] = crossing
+    for fam, c in crossing.items():
+        if not c["donor"]:
+            ctx.defer_harness_error(f"family {fam}: no transfer kind takes a donor with a callback across a state threshold")
     big = [x for x in todo if not _is_small(x[0])]
     small = [x for x in todo if _is_small(x[0])]
     results = []
     for name, b in common.rotate(big, ctx.seed):  # large trees: parallel inside the harness
-        results.append((name, b, run_harness(name, b)))
+        results.append((name, b, run_harness_deferring(name, b)))
     # many small trees: one harness per worker
     small = common.rotate(small, ctx.seed)
-    results += [(n, b, r) for (n, b), r in zip(small, common.pmap(lambda x: _strip(run_harness(x[0], x[1], nproc=1)), small))]
+    results += [(n, b, r) for (n, b), r in zip(small, common.pmap(lambda x: run_harness_deferring(x[0], x[1], strip=True, nproc=1), small))]
     results.sort(key=lambda x: x[0])
     for name, b, res in results:
+        if "error" in res:
+            ctx.defer_harness_error(res["error"])
+            continue
         total_exec += res["executions"]
         per[name] = {"schedules": res["executions"], "distinct_outcomes": len(res["outcomes"]),
                      "sequential_outcomes": res["strict"], "max_choice_points": res["max_choice_points"],
@@ -618,7 +703,10 @@ def run(ctx):
                     ctx.stats["not-asserted:unsynchronised-interest:harnesses"]))
     if ctx.tier == "thorough":
         for name in OPCODE:
-            res = run_harness(name, 2, opcodes=True)
+            res = run_harness_deferring(name, 2, opcodes=True)
+            if "error" in res:
+                ctx.defer_harness_error(res["error"])
+                continue
             total_exec += res["executions"]
             per[name + "@opcode"] = {"schedules": res["executions"], "distinct_outcomes": len(res["outcomes"]),
                                      "max_choice_points": res["max_choice_points"], "preemption_bound": 2,
@@ -642,7 +730,8 @@ def run(ctx):
              "hand-picked collisions S*, lock-rank variants and three-store transfer rings R*, all unordered pairs of "
              "operation kinds from several start states (P: ATP mid state; G: three currencies, debt carried, silent=False, "
              "state-change callback, getters; D: starving/dormant with priorities; X: raising state-change callback; "
-             "I: apply_debt_interest, advisory), "
+             "E: class and message of the exception the callback raises; I: apply_debt_interest, advisory), every transfer||transfer pair of a family under both creation orders of "
+             "the two stores (@r), "
              "three-thread multisets T* (thorough); distinct = distinct (harness, outcome) pairs; "
              "'states' = sum over harnesses of the maximum number of scheduling choice points in one execution",
         exhaustive=all(p["capped"] == 0 for p in per.values()),
@@ -650,9 +739,10 @@ def run(ctx):
         harness_count=len(per),
         preemption_bound=bound,
         op_kinds={"P": len(PAIR_OPS), "G": len(G_OPS), "D": len(D_OPS), "X": len(X_OPS), "I": len(I_OPS), "T": len(T_KINDS)},
+        callback_exception_classes=list(E_CLASSES),
     )
     ctx.assumptions += [
-        "PointLock/CoopLock has the mutual-exclusion semantics of threading.Lock/RLock; C-level atomicity of a single bytecode is trusted",
+        "CoopLock has the mutual-exclusion semantics of threading.Lock/RLock; C-level atomicity of a single bytecode is trusted",
         "interleavings are explored at source-line granularity (bytecode granularity on 4 harnesses in the thorough tier)",
         "regeneration_rate > 0 (a real timer thread sleeping 1 s) is not constructed; the background thread is modelled by an "
         "explicit regenerate() thread",
